@@ -38,10 +38,12 @@ LMap = Mapping[str, List[T]]
 OptList = List[Optional[T]]
 
 VariableUsages = MMap[
-    Tuple[
-        _ast.Variable,
-        Optional[Union[EnumType, ScalarType, InputObjectType]],
-        Optional[Union[_ast.Argument, _ast.Field]],
+    List[
+        Tuple[
+            _ast.Variable,
+            Optional[Union[EnumType, ScalarType, InputObjectType]],
+            Optional[Union[_ast.Argument, _ast.Field]],
+        ]
     ]
 ]
 
@@ -175,17 +177,15 @@ class VariablesCollector(ValidationVisitor):
         if self._in_var_def:
             pass
         elif self._op is not None:
-            self._op_variables[self._op][var] = (  # type: ignore
-                node,
-                input_type,
-                input_value_def,
-            )
+            # Keep every usage: the same variable can be used at several
+            # positions expecting different types.
+            self._op_variables[self._op].setdefault(  # type: ignore
+                var, []
+            ).append((node, input_type, input_value_def))
         elif self._fragment is not None:
-            self._fragment_variables[self._fragment][var] = (  # type: ignore
-                node,
-                input_type,
-                input_value_def,
-            )
+            self._fragment_variables[self._fragment].setdefault(  # type: ignore
+                var, []
+            ).append((node, input_type, input_value_def))
 
     def _flatten_fragments(self):
         for parent, children in self._fragment_fragments.items():
